@@ -25,7 +25,7 @@ def norm(b, names):
 
 
 def _case(args):
-    exe, name, path, target, wd, shim, do_vg, do_strace = args
+    exe, name, path, target, wd, shim, do_vg, do_strace, others = args
     data = open(path, 'rb').read()
     sub = os.path.join(wd, 'w%d' % os.getpid())
     os.makedirs(sub, exist_ok=True)
@@ -63,9 +63,13 @@ def _case(args):
         ('env-crowded', lambda: run([exe, '-t', target, path], dict(('V%d' % i, 'x' * 200) for i in range(300)))),
         ('stack-4M', lambda: run(['sh', '-c', 'ulimit -s 4096; exec "$0" -t "$1" "$2"', exe, target, path])),
     ]
+    for oname, oexe in others:
+        variants.append(('build:' + oname, (lambda oexe=oexe: run([oexe, '-t', target, path]))))
     for vname, f in variants:
         v = f()
         res['n'] += 1
+        if vname.startswith('build:') and (v[3] is not None or v[4]):
+            continue  # a differently built binary may exhaust its stack at another depth: crashes are C19's subject
         if v[:4] != base[:4]:
             what = 'stdout' if v[0] != base[0] else 'stderr' if v[1] != base[1] else 'status'
             res['diffs'].append((vname, what, repr((base[2], base[1][:150], v[2], v[1][:150]))))
@@ -170,6 +174,7 @@ def run(tier):
             raise common.HarnessError('the LD_PRELOAD audit shim does not record calls (self-test log: %r)' % seen[:100])
     if rc != 0:
         raise common.HarnessError('shim build failed: ' + e.decode())
+    others = [(v, common.build(v)) for v in ('clang', 'gccO0')]
     files = [('suite:' + os.path.basename(p), p) for p in sorted(glob.glob(os.path.join(common.REPO, 'test', '*.c')))]
     files += [('corpus:' + os.path.basename(p), p) for p in sorted(glob.glob(os.path.join(common.VERIF, 'corpus', '*', '*.c')))]
     ngen, nodd, nmut = (30, 250, 450) if tier == 'quick' else (300, 1500, 3000)
@@ -191,21 +196,27 @@ def run(tier):
     # byte-level variants for which reading by path and reading from stdin could take different code paths
     basef = open(os.path.join(common.VERIF, 'corpus', 'run', 'control.c'), 'rb').read()
     variants = {'bom': b'\xef\xbb\xbf' + basef, 'bom-only': b'\xef\xbb\xbf', 'crlf': basef.replace(b'\n', b'\r\n'), 'no-final-newline': basef.rstrip(b'\n'), 'nul-inside': basef[:200] + b'\0' + basef[200:],
-                'empty': b'', 'only-newlines': b'\n\n\n', 'ff-prefix': b'\x0c' + basef, 'utf16-bom': b'\xff\xfe' + basef, 'splice-at-eof': basef + b'\\', 'ctrl-z': basef + b'\x1a', 'cr-only': basef.replace(b'\n', b'\r')}
+                'empty': b'', 'only-newlines': b'\n\n\n', 'ff-prefix': b'\x0c' + basef, 'utf16-bom': b'\xff\xfe' + basef, 'splice-at-eof': basef + b'\\', 'ctrl-z': basef + b'\x1a', 'cr-only': basef.replace(b'\n', b'\r'),
+                # the scanner reads one character past '..' and has to put it back, which a pipe and a file may support differently
+                'dots-attr': b'__attribute__((unknown(..))) int x1 = 1;\n__attribute__((u2(a..b, ..), u3(. ..))) int x2 = 2;\nint f(int a, ...) { return a + x1 + x2; }\n',
+                'dots-eof': b'int x;\n..', 'dot-eof': b'int x;\n.', 'dots-nl-eof': b'int x;\n..\n', 'dots-many': b'#define D(a) a..b . .. c ...d ....e .. .. ..\n' * 400 + b'int x;\n',
+                'dots-expr': b'struct s { int a; } v; int f(void) { return v..a; }\n'}
     vfiles = []
     for k, v in variants.items():
         p = os.path.join(gdir, 'variant-%s.c' % k)
         common.write(p, v)
         vfiles.append(('variant:' + k, p))
     if tier == 'quick':
+        pinned = [f for f in files if f[0].startswith('corpus:')]
+        files = [f for f in files if not f[0].startswith('corpus:')]
         rng.shuffle(files)
-        files = files[:900]
+        files = pinned + files[:900 - len(pinned)]
     files += vfiles
     items = []
     for k, (name, path) in enumerate(files):
         mm = re.search(r'\+([a-z0-9_-]+)\.c$', path)
         t = mm.group(1) if mm else common.TARGETS[k % 3]
-        items.append((exe, name, path, t, wd, shim, k % (8 if tier == 'quick' else 6) == 0, k % 5 == 0))
+        items.append((exe, name, path, t, wd, shim, k % (8 if tier == 'quick' else 6) == 0, k % 5 == 0, others))
     nvg = 0
     for r in common.pmap(_case, items):
         ck.evaluations += max(r['n'], 1)
@@ -225,10 +236,10 @@ def run(tier):
             ck.violation('audit:' + re.sub(r'\d+', 'N', a)[:60], '%s -t %s: %s' % (r['name'], r['target'], a),
                          {'input.c': open([p for n, p in files if n == r['name']][0], 'rb').read()})
     ck.extra['valgrind_runs'] = nvg
-    ck.extra['perturbations_per_input'] = 21
+    ck.extra['perturbations_per_input'] = 23
     ck.extra['locale_note'] = 'only C/POSIX/C.UTF-8 locales are installed: a decimal-comma locale cannot change a byte here; the setlocale interposer is what would expose such a dependency'
     ck.sample({'perturbations': ['repeat', 'LC_ALL x3', 'TZ', 'MALLOC_PERTURB_ x3', 'malloc tunables', 'ASLR off/on', 'cwd relative x2', 'stdin file', 'stdin pipe chunks',
-                                 'env empty/crowded', 'stack size', '-o file', 'argv[0]', 'LD_PRELOAD audit', 'strace audit (1/5)', 'valgrind (1/8)']})
-    ck.rule = 'inputs: suite, corpus, generated valid, odd-shaped and mutated (mostly invalid) programs; 21 perturbed runs each, byte comparison after replacing the given input name; non-trivial = >200 bytes of output or a diagnostic'
+                                 'env empty/crowded', 'stack size', 'binary built by clang -O2', 'binary built by gcc -O0', '-o file', 'argv[0]', 'LD_PRELOAD audit', 'strace audit (1/5)', 'valgrind (1/8)']})
+    ck.rule = 'inputs: suite, corpus, generated valid, odd-shaped and mutated (mostly invalid) programs; 23 perturbed runs each, byte comparison after replacing the given input name; non-trivial = >200 bytes of output or a diagnostic'
     ck.assumptions = ['diagnostics may differ only in the input file name they were given and in argv[0]']
     return ck.finish(min_decided=500)
